@@ -1,4 +1,5 @@
 import PugModel.Tpl.Exec
+import PugModel.Gen.Tables
 /-!
 # C02 — conditionals, case, each and while select and repeat exactly as pug prescribes
 
@@ -209,5 +210,64 @@ theorem C02_each_step (fuel : Nat) (env : Env) (k v : String) (body : List TNode
 theorem C02_each_empty (fuel : Nat) (env : Env) (decl : List String) (body : List TNode) (st : St) :
     walkItems (fuel + 1) env decl body [] st = .ok ((), st) := by
   simp [walkItems, pure, StateT.pure, Except.pure]
+
+/-! ## the code the model mirrors, by its control skeleton
+
+`Gen.loopSkeleton`: `state.walkRange` and `state.walkIfOrWith` (pugjs/tpl_exec.go): the kinds a loop ranges over, the while loop with its cap test, the else branch, the truth test of if - every `if` / `switch` / `case` condition, loop header, `return`, `continue`, in source order with nesting depth,
+regenerated from the Go source on every run. It must be the skeleton the executor model of `range` / `if` (`Tpl/Exec.lean`) was written against: a changed condition, an added
+branch or early exit reopens the obligation before any input is drawn. -/
+
+def expected_loopSkeleton : List (String × String) :=
+  [("state.walkRange", "0 defer s.pop"),
+   ("state.walkRange", "0 range r.Pipe.Decl"),
+   ("state.walkRange", "0 if val.IsValid()"),
+   ("state.walkRange", "1 if ok"),
+   ("state.walkRange", "2 typeswitch "),
+   ("state.walkRange", "3 case *Array"),
+   ("state.walkRange", "3 case *Map"),
+   ("state.walkRange", "4 if len(obj.order) > 0"),
+   ("state.walkRange", "5 range obj.order"),
+   ("state.walkRange", "6 if obj.HasMember(index)"),
+   ("state.walkRange", "5 return "),
+   ("state.walkRange", "3 case Nil"),
+   ("state.walkRange", "1 else "),
+   ("state.walkRange", "0 switch val.Kind()"),
+   ("state.walkRange", "1 case reflect.Array, reflect.Slice"),
+   ("state.walkRange", "2 if val.Len() == 0"),
+   ("state.walkRange", "3 break "),
+   ("state.walkRange", "2 for i < val.Len()"),
+   ("state.walkRange", "2 return "),
+   ("state.walkRange", "1 case reflect.Map"),
+   ("state.walkRange", "2 if val.Len() == 0"),
+   ("state.walkRange", "3 break "),
+   ("state.walkRange", "2 range sortKeys(val.MapKeys())"),
+   ("state.walkRange", "2 return "),
+   ("state.walkRange", "1 case reflect.Chan"),
+   ("state.walkRange", "2 if val.IsNil()"),
+   ("state.walkRange", "3 break "),
+   ("state.walkRange", "2 for "),
+   ("state.walkRange", "3 if !ok"),
+   ("state.walkRange", "4 break "),
+   ("state.walkRange", "2 if i == 0"),
+   ("state.walkRange", "3 break "),
+   ("state.walkRange", "2 return "),
+   ("state.walkRange", "1 case reflect.Bool"),
+   ("state.walkRange", "2 for val.Bool()"),
+   ("state.walkRange", "3 if i > 10000"),
+   ("state.walkRange", "2 return "),
+   ("state.walkRange", "1 case reflect.Invalid"),
+   ("state.walkRange", "2 break "),
+   ("state.walkRange", "1 case "),
+   ("state.walkRange", "0 if r.ElseList != nil"),
+   ("state.walkIfOrWith", "0 if !ok"),
+   ("state.walkIfOrWith", "0 if truth"),
+   ("state.walkIfOrWith", "1 if typ == parse.NodeWith"),
+   ("state.walkIfOrWith", "1 else "),
+   ("state.walkIfOrWith", "0 else "),
+   ("state.walkIfOrWith", "1 if elseList != nil")]
+
+/-- **C02 (the model's tie to the code, by shape).** -/
+theorem C02_loop_skeleton : Gen.loopSkeleton_ok = true ∧ Gen.loopSkeleton = expected_loopSkeleton := by
+  constructor <;> decide
 
 end Pug.Props.C02
